@@ -14,7 +14,9 @@ package ucon
 //   * addrVoteInfo, on a vote of the same address for a DIFFERENT hash, marks the address as double-voted and removes
 //     exactly its recorded weight from the hash it had voted for (an equivocator contributes no weight);
 //   * every other hash's count and table are untouched.
-// By induction over the operations, voteCounts[h] is the sum of the weights in votesInfo[h].
+// By induction over the operations, voteCounts[h] is the sum of the weights in votesInfo[h]; the base case is clause 1b
+// (statistics handed out for a new position — new or RECYCLED — are empty), further down with the look-back list clauses
+// (clause 4: voter and header verifier resolve VoterIdx against the same validator lists) and the packing at commit.
 
 //@ spec func c03WF(v: *VoteSta) bool = v.addressVotes != nil && v.votesInfo != nil && v.voteCounts != nil
 
@@ -35,6 +37,7 @@ package ucon
 //@ ensures [other-hashes]      forall h: common.Hash :: h != hash ==> v.voteCounts[h] == old(v.voteCounts[h])
 //@ ensures [other-addresses]   forall a: common.Address :: a != address ==> v.addressVotes[a] == old(v.addressVotes[a])
 //@ ensures [same-maps]         v.addressVotes == old(v.addressVotes) && v.votesInfo == old(v.votesInfo) && v.voteCounts == old(v.voteCounts)
+//@ ensures [no-phantom-weight] old(c03NoPhantom(v)) ==> c03NoPhantom(v)   // weight only for blocks that have a vote table (c03NoPhantom is defined below, with clear)
 
 //@ effectfree github.com/youchainhq/go-youchain/consensus/ucon.CompareCommonHash
 
@@ -63,6 +66,93 @@ package ucon
 //@                         mapval(v.voteCounts) == old(mapval(v.voteCounts)) && mapdom(v.voteCounts) == old(mapdom(v.voteCounts)) &&
 //@                         (st0 != nil ==> st0.DoubleVoted == old(st0.DoubleVoted))
 //@ ensures [other-hashes] forall h: common.Hash :: (st0 == nil || h != oldHash) ==> v.voteCounts[h] == old(v.voteCounts[h])
+//@ ensures [no-phantom-weight] old(c03NoPhantom(v)) ==> c03NoPhantom(v)
+
+// ---------------------------------------------------------------------------------------------------------
+// Clause 1b: a quorum is counted from the votes of ONE (round, round index). The statistics objects are recycled
+// (VotesWrapperList keeps params.MaxVoteCacheCount wrappers and re-uses the oldest one for a new position), so whoever
+// hands out a table for a new position must hand out EMPTY tallies: no weight, no vote table, no sender record.
+// Emptiness is stated on the domain of the three maps ("no key"), which holds for a re-allocated map as well as for a
+// map emptied in place; `m[k]` then is the zero value (no weight / no table / no record) by Go's lookup semantics.
+
+//@ spec func c03Empty(s: *VoteSta) bool = s != nil && c03WF(s) &&
+//@     (forall h: common.Hash :: !in(h, s.voteCounts)) && (forall h: common.Hash :: !in(h, s.votesInfo)) &&
+//@     (forall a: common.Address :: !in(a, s.addressVotes))
+//@ spec func c03MgrEmpty(vm: *VotesManager) bool = vm != nil &&
+//@     c03Empty(vm.prevotes) && c03Empty(vm.precommits) && c03Empty(vm.nextIndexs) && c03Empty(vm.certificates)
+//@ spec func c03WrapperEmpty(vw: *VotesWrapper) bool = vw != nil && c03MgrEmpty(vw.chamber) && c03MgrEmpty(vw.house)
+
+// Representation invariant between the two tables (the part of "voteCounts[h] is the sum of the weights in votesInfo[h]"
+// that does not need a sum): a block without vote table carries no weight. Established by clear (base case of the
+// induction: everything empty), preserved by newVote / addrVoteInfo (clauses [no-phantom-weight] there).
+//@ spec func c03NoPhantom(s: *VoteSta) bool = forall h: common.Hash :: !in(h, s.votesInfo) ==> s.voteCounts[h] == 0
+
+//@ func (*VoteSta).clear props C03
+//@ panics none
+//@ requires [nonnil] v != nil
+//@ modifies v.votesInfo, v.voteCounts, v.addressVotes, mapof(v.votesInfo), mapof(v.voteCounts), mapof(v.addressVotes)
+//@ ensures [wf]              c03WF(v)
+//@ ensures [tallies-empty]   forall h: common.Hash :: !in(h, v.voteCounts) && v.voteCounts[h] == 0
+//@ ensures [votes-empty]     forall h: common.Hash :: !in(h, v.votesInfo) && v.votesInfo[h] == nil
+//@ ensures [senders-empty]   forall a: common.Address :: !in(a, v.addressVotes) && v.addressVotes[a] == nil
+//@ ensures [no-phantom-weight] c03NoPhantom(v)
+// the tables are the statistics' own: the old objects (emptied) or new ones — never a map somebody else holds
+//@ ensures [own-tables]      (v.votesInfo == old(v.votesInfo) || fresh(v.votesInfo)) && (v.voteCounts == old(v.voteCounts) || fresh(v.voteCounts)) &&
+//@                           (v.addressVotes == old(v.addressVotes) || fresh(v.addressVotes))
+// whatever happens to the map objects the statistics held before (dropped, or emptied and kept): they only lose keys
+// (lets a caller clear several statistics objects without knowing that they do not share maps)
+//@ ensures [old-tables-only-shrink] (forall h: common.Hash :: in(h, old(v.voteCounts)) ==> old(in(h, v.voteCounts))) &&
+//@                           (forall h: common.Hash :: in(h, old(v.votesInfo)) ==> old(in(h, v.votesInfo))) &&
+//@                           (forall a: common.Address :: in(a, old(v.addressVotes)) ==> old(in(a, v.addressVotes)))
+
+// One committee kind's statistics for a position: all four vote kinds are emptied and the manager is labelled with the
+// position it now counts for (VotesManager.newVote / addrVoteInfo refuse votes of any other position).
+//@ func (*VotesManager).clearVotesInfo props C03
+//@ requires [nonnil] vm != nil && vm.prevotes != nil && vm.precommits != nil && vm.nextIndexs != nil && vm.certificates != nil
+//@ modifies vm.round, vm.roundIndex,
+//@          vm.prevotes.votesInfo, vm.prevotes.voteCounts, vm.prevotes.addressVotes,
+//@          vm.precommits.votesInfo, vm.precommits.voteCounts, vm.precommits.addressVotes,
+//@          vm.nextIndexs.votesInfo, vm.nextIndexs.voteCounts, vm.nextIndexs.addressVotes,
+//@          vm.certificates.votesInfo, vm.certificates.voteCounts, vm.certificates.addressVotes,
+//@          mapof(vm.prevotes.votesInfo), mapof(vm.prevotes.voteCounts), mapof(vm.prevotes.addressVotes),
+//@          mapof(vm.precommits.votesInfo), mapof(vm.precommits.voteCounts), mapof(vm.precommits.addressVotes),
+//@          mapof(vm.nextIndexs.votesInfo), mapof(vm.nextIndexs.voteCounts), mapof(vm.nextIndexs.addressVotes),
+//@          mapof(vm.certificates.votesInfo), mapof(vm.certificates.voteCounts), mapof(vm.certificates.addressVotes)
+//@ ensures [labelled-with-the-position] vm.round == round && vm.roundIndex == roundIndex
+//@ ensures [prevotes-empty]     c03Empty(vm.prevotes)
+//@ ensures [precommits-empty]   c03Empty(vm.precommits)
+//@ ensures [nextindexes-empty]  c03Empty(vm.nextIndexs)
+//@ ensures [certificates-empty] c03Empty(vm.certificates)
+//@ ensures [same-statistics]    vm.prevotes == old(vm.prevotes) && vm.precommits == old(vm.precommits) && vm.nextIndexs == old(vm.nextIndexs) && vm.certificates == old(vm.certificates)
+// every table any statistics object held before only loses keys (so statistics emptied earlier stay empty when the next
+// manager is cleared, whether or not the objects are shared)
+//@ ensures [tables-only-shrink] (forall s: *VoteSta, h: common.Hash :: in(h, old(s.voteCounts)) ==> old(in(h, s.voteCounts))) &&
+//@                              (forall s: *VoteSta, h: common.Hash :: in(h, old(s.votesInfo)) ==> old(in(h, s.votesInfo))) &&
+//@                              (forall s: *VoteSta, a: common.Address :: in(a, old(s.addressVotes)) ==> old(in(a, s.addressVotes)))
+//@ ensures [own-tables]         forall s: *VoteSta :: (s.votesInfo == old(s.votesInfo) || fresh(s.votesInfo)) && (s.voteCounts == old(s.voteCounts) || fresh(s.voteCounts)) &&
+//@                                                     (s.addressVotes == old(s.addressVotes) || fresh(s.addressVotes))
+
+// Both committee kinds of one wrapper (the unit that is cached and recycled).
+//@ func (*VotesWrapper).clearVotesInfo props C03
+//@ requires [nonnil] vw != nil && vw.chamber != nil && vw.house != nil
+//@ modifies vw.chamber.round, vw.chamber.roundIndex, vw.house.round, vw.house.roundIndex,
+//@          all(VoteSta.votesInfo), all(VoteSta.voteCounts), all(VoteSta.addressVotes),
+//@          mapof(vw.chamber.prevotes.votesInfo), mapof(vw.chamber.prevotes.voteCounts), mapof(vw.chamber.prevotes.addressVotes),
+//@          mapof(vw.chamber.precommits.votesInfo), mapof(vw.chamber.precommits.voteCounts), mapof(vw.chamber.precommits.addressVotes),
+//@          mapof(vw.chamber.nextIndexs.votesInfo), mapof(vw.chamber.nextIndexs.voteCounts), mapof(vw.chamber.nextIndexs.addressVotes),
+//@          mapof(vw.chamber.certificates.votesInfo), mapof(vw.chamber.certificates.voteCounts), mapof(vw.chamber.certificates.addressVotes),
+//@          mapof(vw.house.prevotes.votesInfo), mapof(vw.house.prevotes.voteCounts), mapof(vw.house.prevotes.addressVotes),
+//@          mapof(vw.house.precommits.votesInfo), mapof(vw.house.precommits.voteCounts), mapof(vw.house.precommits.addressVotes),
+//@          mapof(vw.house.nextIndexs.votesInfo), mapof(vw.house.nextIndexs.voteCounts), mapof(vw.house.nextIndexs.addressVotes),
+//@          mapof(vw.house.certificates.votesInfo), mapof(vw.house.certificates.voteCounts), mapof(vw.house.certificates.addressVotes)
+//@ ensures [labelled-with-the-position] vw.chamber.round == round && vw.chamber.roundIndex == roundIndex && vw.house.round == round && vw.house.roundIndex == roundIndex
+//@ ensures [chamber-empty] c03MgrEmpty(vw.chamber)
+//@ ensures [house-empty]   c03MgrEmpty(vw.house)
+//@ ensures [tables-only-shrink] (forall s: *VoteSta, h: common.Hash :: in(h, old(s.voteCounts)) ==> old(in(h, s.voteCounts))) &&
+//@                              (forall s: *VoteSta, h: common.Hash :: in(h, old(s.votesInfo)) ==> old(in(h, s.votesInfo))) &&
+//@                              (forall s: *VoteSta, a: common.Address :: in(a, old(s.addressVotes)) ==> old(in(a, s.addressVotes)))
+//@ ensures [own-tables]         forall s: *VoteSta :: (s.votesInfo == old(s.votesInfo) || fresh(s.votesInfo)) && (s.voteCounts == old(s.voteCounts) || fresh(s.voteCounts)) &&
+//@                                                     (s.addressVotes == old(s.addressVotes) || fresh(s.addressVotes))
 
 // ---------------------------------------------------------------------------------------------------------
 // Clause 2: escalation and commit are reachable only behind a counted quorum (typestate of judgeVoteCount).
@@ -100,9 +190,19 @@ package ucon
 //@ func (*Voter).vote props C03
 //@ nobody
 //@ modifies all
+// commit (frame/ensures ASSUMED; the anchored asserts are verified): the vote sets attached to the CommitEvent — what
+// (*Server).Seal -> PackVotes turns into header.Validator / header.Certificate — are the counted precommits (and, in a
+// certificate round, the counted certificate votes) of exactly the committed block, read from the current statistics.
 //@ func (*Voter).commit props C03
 //@ nobody
 //@ modifies all
+//@ assert before call (*VotesWrapper).getVotes#1: [packs-the-precommits-of-the-committed-block]
+//@        a0 == v.votesMgr && a1 == Precommit && a2 == blockHash && a3 == params.KindChamber
+//@ assert before call (*VotesWrapper).getVotes#3: [packs-the-certificates-of-the-committed-block]
+//@        v.shouldCert && a0 == v.votesMgr && a1 == Certificate && a2 == blockHash && a3 == params.KindChamber
+//@ assert after store ChamberCerts: [event-carries-the-certificates] ev.ChamberCerts == chamberCerts
+//@ assert before call (*event.TypeMux).AsyncPost: [event-carries-the-precommits]
+//@        ev.ChamberPrecommits == chamberPrecommits && ev.Block == block && ev.Round == v.round && ev.RoundIndex == v.roundIndex
 //@ func (*Voter).setMarkedBlock props C03
 //@ nobody
 //@ modifies all
@@ -141,20 +241,52 @@ package ucon
 //@ func (*VotesWrapperList).GetWrapper props C03
 //@ nobody
 //@ pure
-// NewWrapper (contains a shifting loop): ASSUMED frame — it writes only the wrapper list and the statistics objects it resets.
+// NewWrapper hands out the statistics for a position: the existing ones if the position is cached, else a new wrapper or —
+// from the (params.MaxVoteCacheCount+1)-th position on — the RECYCLED oldest wrapper. Verified against the body (both
+// branches; NewVotesWrapper, NewVotesManager, NewVoteSta are inlined; the reset goes through the contract of
+// VotesWrapper.clearVotesInfo): statistics handed out for a position that had none are EMPTY (no weight, no
+// vote, no sender record, for both committee kinds and all four vote kinds) and labelled with that position.
+// c03Existing = what the cache lookup at the start of NewWrapper found (nil: the position is new).
+//@ ghost var c03Existing: *VotesWrapper
 //@ func (*VotesWrapperList).NewWrapper props C03
-//@ nobody
+//@ opt per-return
+//@ requires [nonnil] v != nil && round != nil
+// (frame: the list, the labels and table fields of statistics, and the map objects of the recycled wrapper — the oldest one, v.wrappers[0])
 //@ modifies all(VotesWrapperList.wrappers), all(VotesWrapperList.contexts), all(elems(*VotesWrapper)), all(elems(RoundIndexHash)),
-//@          all(VotesManager.round), all(VotesManager.roundIndex), all(VoteSta.votesInfo), all(VoteSta.voteCounts), all(VoteSta.addressVotes)
+//@          all(VotesManager.round), all(VotesManager.roundIndex), all(VoteSta.votesInfo), all(VoteSta.voteCounts), all(VoteSta.addressVotes), c03Existing,
+//@          mapof(v.wrappers[0].chamber.prevotes.votesInfo), mapof(v.wrappers[0].chamber.prevotes.voteCounts), mapof(v.wrappers[0].chamber.prevotes.addressVotes),
+//@          mapof(v.wrappers[0].chamber.precommits.votesInfo), mapof(v.wrappers[0].chamber.precommits.voteCounts), mapof(v.wrappers[0].chamber.precommits.addressVotes),
+//@          mapof(v.wrappers[0].chamber.nextIndexs.votesInfo), mapof(v.wrappers[0].chamber.nextIndexs.voteCounts), mapof(v.wrappers[0].chamber.nextIndexs.addressVotes),
+//@          mapof(v.wrappers[0].chamber.certificates.votesInfo), mapof(v.wrappers[0].chamber.certificates.voteCounts), mapof(v.wrappers[0].chamber.certificates.addressVotes),
+//@          mapof(v.wrappers[0].house.prevotes.votesInfo), mapof(v.wrappers[0].house.prevotes.voteCounts), mapof(v.wrappers[0].house.prevotes.addressVotes),
+//@          mapof(v.wrappers[0].house.precommits.votesInfo), mapof(v.wrappers[0].house.precommits.voteCounts), mapof(v.wrappers[0].house.precommits.addressVotes),
+//@          mapof(v.wrappers[0].house.nextIndexs.votesInfo), mapof(v.wrappers[0].house.nextIndexs.voteCounts), mapof(v.wrappers[0].house.nextIndexs.addressVotes),
+//@          mapof(v.wrappers[0].house.certificates.votesInfo), mapof(v.wrappers[0].house.certificates.voteCounts), mapof(v.wrappers[0].house.certificates.addressVotes)
+//@ ghost after call (*VotesWrapperList).GetWrapper: c03Existing := ret
+//@ ensures [cached-position-keeps-its-tallies] c03Existing != nil ==> result == c03Existing
+//@ ensures [new-position-gets-empty-tallies]   c03Existing == nil ==> result != nil && c03MgrEmpty(result.chamber)
+//@ ensures [new-position-gets-empty-tallies-house] c03Existing == nil ==> result != nil && c03MgrEmpty(result.house)
+//@ ensures [labelled-with-the-position]        c03Existing == nil ==> result.chamber.round == round && result.chamber.roundIndex == roundIndex &&
+//@                                                                   result.house.round == round && result.house.roundIndex == roundIndex
 // (VotesWrapper.addrVoteInfo / newVote and VotesManager.* are loop-free wrappers: inlined down to the VoteSta contracts above.)
+// getVotesInfo — what commit packs: a fresh copy of exactly the vote table of the block, and the block's tally.
 //@ func (*VoteSta).getVotesInfo props C03
-//@ nobody
-//@ pure
+//@ requires [nonnil] v != nil && c03WF(v)
+//@ modifies nothing
+//@ let table = v.votesInfo[hash]
+//@ loop #1 invariant [visited-in-table] forall a: common.Address :: visited[a] ==> table != nil && in(a, table)
+//@ loop #1 invariant [copied]           forall a: common.Address :: visited[a] ==> in(a, votes) && votes[a] == table[a]
+//@ loop #1 invariant [nothing-else]     forall a: common.Address :: in(a, votes) ==> visited[a]
+//@ loop #1 invariant [others-untouched] forall m: VotesInfoForBlockHash :: m != votes ==> mapdom(m) == old(mapdom(m)) && mapval(m) == old(mapval(m)) && len(m) == old(len(m))
+//@ ensures [tally-of-the-block] result1 == v.voteCounts[hash]
+//@ ensures [exactly-the-votes-of-the-block] result0 != nil && fresh(result0) &&
+//@         (forall a: common.Address :: in(a, result0) == (table != nil && in(a, table))) &&
+//@         (forall a: common.Address :: in(a, result0) ==> result0[a] == table[a])
 
 //@ func (*Voter).processVoteMsg props C03
 //@ opt abstract-slices
 //@ requires [nonnil] v != nil
-//@ modifies all, c03SignerOK, c03Signer, c03SortOK, c03SortVotes
+//@ modifies all, c03SignerOK, c03Signer, c03SortOK, c03SortVotes, c03Existing
 //@ ghost after call (*Voter).getAddrFromVote: c03SignerOK := ret2 == nil
 //@ ghost after call (*Voter).getAddrFromVote: c03Signer := ret1
 //@ assert before call dynamic:consensus/ucon.VerifySortitionFn: [credential-binds-message]
@@ -174,9 +306,166 @@ package ucon
 //@ ghost var c03FlagsReset: bool
 //@ func (*Voter).updateContext props C03
 //@ requires [nonnil] v != nil
-//@ modifies all, c03FlagsReset
+//@ modifies all, c03FlagsReset, c03Existing, c03ListsRefreshed
 //@ ghost at entry: c03FlagsReset := false
 //@ ghost after store voteOver: c03FlagsReset := true
 //@ assert after store voteOver: [fresh-empty-flags] fresh(v.voteOver) && len(v.voteOver) == 0
 //@ assert before call (*VoteDB).UpdateContext: [quorum-flags-reset-on-new-position]
 //@        (old(v.round) == nil || old(big(v.round)) != old(big(ev.Round)) || old(v.roundIndex) != ev.RoundIndex) ==> c03FlagsReset
+// ... and whenever the ROUND changes the index lists of the BLS manager (my own indices, the lists received indices are
+// resolved against) are refreshed for exactly the new round and its certificate flag — SignVote uses them without a round check.
+//@ ghost var c03ListsRefreshed: bool
+//@ ghost at entry: c03ListsRefreshed := false
+//@ ghost before call (*VoteBLSMgr).update: c03ListsRefreshed := a1 == ev.Round && a2 == ev.Certificate
+//@ assert before call (*VoteDB).UpdateContext: [index-lists-refreshed-on-new-round]
+//@        (old(v.round) == nil || old(big(v.round)) != old(big(ev.Round))) ==> c03ListsRefreshed
+
+// ---------------------------------------------------------------------------------------------------------
+// Clause 4 (the part that is about WHICH validator list): "the vote set attached to a commit always yields a header
+// that every verifier accepts". A vote names its sender by VoterIdx, an index into a look-back validator list. The header
+// verifier ((*Server).verifyConsensusField -> verifyConsensusFieldMain -> verifyVotes -> RecoverSignerInfo) resolves the
+// indices of the precommit set against the list of look-back type LookBackStake and those of the certificate set against
+// the list of type LookBackCertStake (a different block: 2*ACoCHTFrequency back, not StakeLookBack back). A voter must
+// therefore take its own index from, and resolve received indices against, the lists of exactly these types. ONE spec
+// function names the type per vote kind and is used by the contracts of both sides:
+//@ spec func c03VldLookBack(isCert: bool) int = if isCert then params.LookBackCertStake else params.LookBackStake
+
+// History predicate (uninterpreted, never negated): reader r was handed out as the validator list of look-back type lb
+// for block number n — by LookBackMgr.GetLookBackVldReader (voter side; implemented by (*Server).GetLookBackVldReader)
+// or by (*Server).getLookBackValReader (verifier side). Both go through (*Server).GetLookBackBlockNumber (contract below).
+//@ spec func c03ReaderFor(r: state.ValidatorReader, n: int, lb: int) bool
+// The list a reader hands out (a reader is an immutable snapshot: ASSUMED to be a function of the reader).
+//@ spec func c03Vals(r: state.ValidatorReader) *state.Validators
+// Position of an address in a reader's list, -1 if it is not a member (what VoteBLSMgr.update stores as "my index").
+//@ spec func c03IndexIn(r: state.ValidatorReader, a: common.Address) int =
+//@     if in(a, c03Vals(r).index) then c03Vals(r).index[a] else 0 - 1
+
+//@ func (LookBackMgr).GetLookBackVldReader props C03
+//@ trusted
+//@ pure
+//@ ensures result1 == nil ==> c03ReaderFor(result0, big(num), lbType)
+//@ func (LookBackMgr).CurrentCaravelParams props C03
+//@ trusted
+//@ pure
+//@ func (github.com/youchainhq/go-youchain/core/state.ValidatorReader).GetValidators props C03
+//@ trusted
+//@ pure
+//@ ensures result == c03Vals(recv)
+// body not loaded (core/state is not among the packages of C03): ASSUMED to be what it is, `index, ok := s.index[mainAddress]`
+//@ func (github.com/youchainhq/go-youchain/core/state.Validators).GetIndex props C03
+//@ nobody
+//@ pure
+//@ ensures result1 == in(mainAddress, s.index) && result0 == s.index[mainAddress]
+
+// update: the lists (and my positions in them) for a new round.
+//@ func (*VoteBLSMgr).update props C03
+//@ requires [nonnil] vb != nil && round != nil
+//@ modifies vb.lbVld, vb.myIdx, vb.lbCertVld, vb.myCertIdx, vb.currRound
+//@ ensures [voter-list-is-the-verifiers]      c03ReaderFor(vb.lbVld, big(round), c03VldLookBack(false))
+//@ ensures [cert-voter-list-is-the-verifiers] isCertRound ==> c03ReaderFor(vb.lbCertVld, big(round), c03VldLookBack(true))
+//@ ensures [no-cert-list-outside-cert-rounds] !isCertRound ==> vb.lbCertVld == nil && vb.myCertIdx == 0 - 1
+//@ ensures [my-index-in-the-voter-list]       vb.myIdx == c03IndexIn(vb.lbVld, vb.myAddr)
+//@ ensures [my-index-in-the-cert-list]        isCertRound ==> vb.myCertIdx == c03IndexIn(vb.lbCertVld, vb.myAddr)
+//@ ensures [lists-are-for-this-round]         vb.currRound != nil && big(vb.currRound) == big(round) && vb.currRound != round
+//@ ensures [wf]                               c03BlsWF(vb)
+
+// Object invariant of VoteBLSMgr: the lists it holds are the verifier's lists for the round it holds. Established by
+// NewVoteBLSMgr (no lists), re-established by update; the three fields are written nowhere else (`owns`).
+//@ spec func c03BlsWF(vb: *VoteBLSMgr) bool = vb.currRound != nil &&
+//@     (vb.lbVld != nil ==> c03ReaderFor(vb.lbVld, big(vb.currRound), c03VldLookBack(false))) &&
+//@     (vb.lbCertVld != nil ==> c03ReaderFor(vb.lbCertVld, big(vb.currRound), c03VldLookBack(true)))
+//@ owns VoteBLSMgr.lbVld, VoteBLSMgr.lbCertVld, VoteBLSMgr.currRound by NewVoteBLSMgr, (*VoteBLSMgr).update props C03
+
+//@ effectfree github.com/youchainhq/go-youchain/bls.NewBlsManager github.com/youchainhq/go-youchain/consensus/ucon.NewBlsVerifier
+//@ effectfree github.com/youchainhq/go-youchain/crypto.PubkeyToAddress
+//@ func NewVoteBLSMgr props C03
+//@ ensures [wf] result != nil && c03BlsWF(result) && result.lbVld == nil && result.lbCertVld == nil
+
+// SignVote: my own vote carries my position in the list of ITS vote kind; no position, no vote.
+// (BLS signing / serialisation: no effect on modelled state)
+//@ effectfree (github.com/youchainhq/go-youchain/bls.SecretKey).Sign (github.com/youchainhq/go-youchain/bls.Signature).Compress (github.com/youchainhq/go-youchain/bls.CompressedSignature).Bytes
+//@ func (*VoteBLSMgr).SignVote props C03
+//@ requires [nonnil] vb != nil && voteInfo != nil
+//@ let mine = if voteType == Certificate then vb.myCertIdx else vb.myIdx
+//@ modifies voteInfo.VoterIdx, voteInfo.Signature
+//@ ensures [not-a-member-no-vote] mine < 0 ==> result != nil && voteInfo.VoterIdx == old(voteInfo.VoterIdx)
+//@ ensures [index-from-the-list-of-the-vote-kind] mine >= 0 ==> result == nil && voteInfo.VoterIdx == wrap32(mine)
+
+// Received vote: the sender's index is resolved in the verifier's list for the vote's kind and round — the cached list
+// when the vote is of the round the lists are held for (object invariant), else a list fetched for exactly that type.
+// (The two nil conditions are panic conditions — a nil interface would be called: a Certificate vote of the current round
+// reaches this function only in a certificate round, (*Voter).getAddrFromVote asks CertificateParams(round) first.)
+//@ func (*VoteBLSMgr).getAddrFromVote props C03
+//@ requires [nonnil] vb != nil && round != nil && vote != nil
+//@ requires [nonnil] big(round) == big(vb.currRound) ==> (if voteType == Certificate then vb.lbCertVld != nil else vb.lbVld != nil)
+//@ assume [invariant] c03BlsWF(vb)
+//@ modifies all
+//@ assert before call (*BlsVerifier).RecoverSignerInfo: [index-resolved-in-the-verifiers-list]
+//@        a2 == vote && a1 == c03Vals(vld) && c03ReaderFor(vld, big(round), c03VldLookBack(voteType == Certificate))
+//@ func (*BlsVerifier).RecoverSignerInfo props C03
+//@ nobody
+//@ modifies all
+
+// ---------------------------------------------------------------------------------------------------------
+// The verifying side of the same clause: the header verifier hands verifyVotes the lists of exactly the types
+// c03VldLookBack names — the precommit set is checked against the LookBackStake list, the certificate set against the
+// LookBackCertStake list (both for the header's own number).
+// getLookBackValReader: ASSUMED thin contract (`nobody`): reads the chain, hands out the reader of the look-back block of
+// the requested type (history predicate, see above).
+//@ func (*Server).getLookBackValReader props C03
+//@ nobody
+//@ pure
+//@ ensures result1 == nil ==> c03ReaderFor(result0, big(currNum), lbtype)
+//@ func (*Server).getLookBackHeader props C03
+//@ nobody
+//@ pure
+
+//@ func (*Server).verifyConsensusField props C03
+//@ requires [nonnil] s != nil && header != nil && header.Number != nil && yp != nil
+//@ modifies all
+//@ assert before call (*Server).verifyConsensusFieldMain: [precommit-indices-resolved-in-the-voters-list]
+//@        a6 == header && c03ReaderFor(a3, big(header.Number), c03VldLookBack(false))
+//@ assert before call (*Server).verifyConsensusFieldMain: [certificate-indices-resolved-in-the-voters-list]
+//@        a5 != nil ==> c03ReaderFor(a5, big(header.Number), c03VldLookBack(true))
+
+// verifyConsensusFieldMain (functional contract: property C01): here only WHICH list each vote set is verified against.
+// `nobody`: ensures/frame not claimed; the two anchored asserts ARE verified against the body.
+// (header decoding helpers: ASSUMED to write fresh objects only)
+//@ func ExtractUconValidators props C03
+//@ nobody
+//@ pure
+//@ func GetConsensusDataFromHeader props C03
+//@ nobody
+//@ pure
+//@ func (*Server).verifyVotes props C03
+//@ nobody
+//@ modifies all
+//@ func (*Server).verifyConsensusFieldMain props C03
+//@ nobody
+//@ modifies all
+//@ assert before call (*Server).verifyVotes#1: [precommits-against-the-voter-list]   a1.lbVld == vldReader && a4 == Precommit && a2 == ucValidators.ChamberCommitters
+//@ assert before call (*Server).verifyVotes#2: [certificates-against-the-cert-list]  a1.lbVld == certVldReader && a4 == Certificate && a2 == ucCertificates.ChamberCerts
+
+// Both sides turn (number, look-back type) into a block number through this one function: the number it returns is a
+// function of the type, the two configured distances and the argument only (so voter and verifier, given the same type and
+// parameters, read the same block), and the certificate-stake list is a DIFFERENT block than the certificate-seed one.
+// Not covered: cp == nil for the three non-certificate types (the parameters then come from chain.VersionForRound).
+//@ spec func c03LookBackDist(cp: *params.CaravelParams, lb: int) int =
+//@     if lb == params.LookBackPos || lb == params.LookBackSeed then cp.SeedLookBack
+//@     else if lb == params.LookBackStake then cp.StakeLookBack
+//@     else if lb == params.LookBackCert || lb == params.LookBackCertSeed then params.ACoCHTFrequency
+//@     else 2 * params.ACoCHTFrequency
+//@ spec func c03IsCertLookBack(lb: int) bool = lb == params.LookBackCert || lb == params.LookBackCertSeed || lb == params.LookBackCertStake
+//@ func (github.com/youchainhq/go-youchain/consensus.ChainReader).VersionForRound props C03
+//@ trusted
+//@ pure
+//@ func (*Server).GetLookBackBlockNumber props C03
+//@ requires [nonnil] s != nil && num != nil && big(num) >= 0
+//@ requires [known-type] c03IsCertLookBack(lbType) || lbType == params.LookBackPos || lbType == params.LookBackSeed || lbType == params.LookBackStake
+//@ requires [params-given] cp != nil || c03IsCertLookBack(lbType)
+//@ requires [distances-fit] cp != nil ==> cp.SeedLookBack < 2^63 && cp.StakeLookBack < 2^63
+//@ modifies nothing
+// (decided for the three certificate types only: for the other three the parameter pointer becomes `phi(cp, &yp.CaravelParams)`,
+//  a phi of a reference and a symbolic address, which the engine havocs — engine_requests/C03.md #4)
+//@ ensures [block-number-per-type] c03IsCertLookBack(lbType) ==> result != nil && fresh(result) && big(result) == max(big(num) - c03LookBackDist(cp, lbType), 0)
+//@ ensures [argument-kept] big(num) == old(big(num))
